@@ -155,8 +155,8 @@ Lemma ok_C11_sound c evs observed w :
   ok_C11 (BCase c evs observed w) = true ->
   forall os b items t, In os observed -> In (BatchStart b items t) os -> NoDup (map fst items).
 Proof.
-  unfold ok_C11, final. destruct (mon_run c (minit c) evs observed) as [m|] eqn:E; [|discriminate].
-  intros H. apply negb_true_iff in H. destruct (mon_run_sound c evs observed _ _ E) as (_ & A & _).
+  unfold ok_C11, final. intros H. apply andb_prop in H as [_ H].
+  destruct (mon_run c (minit c) evs observed) as [m|] eqn:E; [|discriminate]. apply negb_true_iff in H. destruct (mon_run_sound c evs observed _ _ E) as (_ & A & _).
   apply A in H as [_ H]. exact H.
 Qed.
 
@@ -164,8 +164,9 @@ Lemma ok_C10_sound c evs observed w :
   ok_C10 (BCase c evs observed w) = true ->
   forall os b items t, In os observed -> In (BatchStart b items t) os -> 1 <= length items.
 Proof.
-  unfold ok_C10, final. destruct (mon_run c (minit c) evs observed) as [m|] eqn:E; [|discriminate].
-  intros H. apply andb_prop in H as [H _]. apply negb_true_iff in H.
+  unfold ok_C10, final. intros H. apply andb_prop in H as [_ H].
+  destruct (mon_run c (minit c) evs observed) as [m|] eqn:E; [|discriminate].
+  apply andb_prop in H as [H _]. apply negb_true_iff in H.
   destruct (mon_run_sound c evs observed _ _ E) as (A & _ & _). apply A in H as [_ H]. exact H.
 Qed.
 
@@ -173,7 +174,8 @@ Lemma ok_C04_sound c evs observed w :
   ok_C04 (BCase c evs observed w) = true ->
   forall os, In os observed -> ~ In TaskDied os /\ NoDup (map (fun d => fst (fst d)) (dones_of os)).
 Proof.
-  unfold ok_C04, final. destruct (mon_run c (minit c) evs observed) as [m|] eqn:E; [|discriminate].
-  intros H. apply andb_prop in H as [H _]. apply negb_true_iff in H.
+  unfold ok_C04, final. intros H. apply andb_prop in H as [_ H].
+  destruct (mon_run c (minit c) evs observed) as [m|] eqn:E; [|discriminate].
+  apply andb_prop in H as [H _]. apply negb_true_iff in H.
   destruct (mon_run_sound c evs observed _ _ E) as (_ & _ & A). apply A in H as [_ H]. exact H.
 Qed.
